@@ -7,6 +7,7 @@ the model's `elements` on the same BPSEQ and the same dot-bracket line.  Specifi
 """
 from core import history_probe, Result, call, parallel_map
 from gen import g1
+from corr import cli_annotator
 from corr.c01 import component_sizes
 
 
@@ -37,6 +38,21 @@ def real(case):
         strands += [s.strand5p, s.strand3p]
     strands += [s.strand for s in singles] + [h.strand for h in hairpins] + [s for l in loops for s in l.strands]
     out["textok"] = all(st.sequence == seq[st.first - 1: st.last] and st.structure == db[st.first - 1: st.last] for st in strands)
+    # other views of the same object are asked for, then the elements again: they are still the elements
+    if (len(seq) + sum(pairs)) % 4 == 0 or len(case) > 3:
+        import os
+        sys_err = os.dup(2)
+        devnull = os.open(os.devnull, os.O_WRONLY)
+        os.dup2(devnull, 2)                 # the drawing goes through an external program that talks on stderr
+        try:
+            for name in ("graphviz", "dot_bracket", "fcfs"):
+                call(lambda: getattr(b, name))
+        finally:
+            os.dup2(sys_err, 2)
+            os.close(devnull)
+            os.close(sys_err)
+        r2 = call(lambda: b.elements)
+        out["again"] = r2[0] == "ok" and [str(e) for l in r2[1] for e in l] == out["desc"]
     return out
 
 
@@ -196,6 +212,10 @@ def run(ctx):
         if "err" in o:
             res.fail("spec", "C07:raises:" + o["err"], inp, "BpSeq.elements raised " + o["err"])
             continue
+        if o.get("again") is False:
+            res.fail("spec", "C07:elements-differ-after-other-views", dict(inp, asked_before=["graphviz", "dot_bracket", "fcfs"]), "after graphviz / dot_bracket / fcfs were read, `elements` of the same object is another list")
+        if "again" in o:
+            res.count("elements-asked-again-after-other-views")
         if not o["textok"]:
             res.fail("spec", "C07:strand-text", inp, "a strand's sequence/structure text is not the slice of sequence/dot-bracket")
         res.count("loops", len(o["loops"]))
@@ -219,12 +239,19 @@ def run(ctx):
             res.fail("spec", "C07:cli:output", inp, "tool printed %r, the library gives %r" % (o["out"][:300], o["exp"][:300]))
     for (tag, c), o in list(zip(inputs, outs))[::max(1, len(inputs) // 6)][:6]:
         res.sample({"family": tag, "seq": c[0][:40], "pairs": c[1][:40], "elements": o.get("desc", [])[:6]})
+    # the command-line tool as an observation point: what annotator.main writes for a file and a set of options is what
+    # the library computes for that file (harness/corr/cli_annotator.py)
+    cli_annotator.judge(res, "C07", cli_annotator.evaluate(ctx))
     return res
 
 
 def replay(ctx, data):
     inp = data["input"]
-    o = real((inp["seq"], inp["pairs"], tuple(inp.get("derived_by", []))))
+    if cli_annotator.is_cli(inp):
+        return cli_annotator.replay_cli("C07", inp)
+    o = real((inp["seq"], inp["pairs"], tuple(inp.get("derived_by", [])), "again"))
+    if o.get("again") is False:
+        print("SPEC FAILURE C07:elements-differ-after-other-views")
     if inp.get("subject"):
         inp = dict(inp, seq=inp["subject"]["seq"], pairs=inp["subject"]["pairs"])
     print("impl:", o)
